@@ -3,7 +3,7 @@
 set -e
 REPO=${VERIF_REPO:-/repo}
 H=${VERIF_HARNESS_DIR:-$(dirname "$0")/../harness}
-sed -e '1s#^module .*#module verifharness#' "$REPO/go.mod" > "$H/go.mod.tmp"
-printf '\nreplace github.com/cosmos/interchain-security/v7 => %s\n' "$REPO" >> "$H/go.mod.tmp"
-if ! cmp -s "$H/go.mod.tmp" "$H/go.mod" 2>/dev/null; then mv "$H/go.mod.tmp" "$H/go.mod"; else rm "$H/go.mod.tmp"; fi
+sed -e '1s#^module .*#module verifharness#' "$REPO/go.mod" > "$H/go.mod.tmp.$$"
+printf '\nreplace github.com/cosmos/interchain-security/v7 => %s\n' "$REPO" >> "$H/go.mod.tmp.$$"
+if ! cmp -s "$H/go.mod.tmp.$$" "$H/go.mod" 2>/dev/null; then mv "$H/go.mod.tmp.$$" "$H/go.mod"; else rm "$H/go.mod.tmp.$$"; fi
 cmp -s "$REPO/go.sum" "$H/go.sum" 2>/dev/null || cp "$REPO/go.sum" "$H/go.sum"
